@@ -24,6 +24,7 @@ package car
 //@   ensures def [C05,C07]: result == (h.IndexOffset != 0)
 
 //@ func (Characteristics).WriteTo
+//@   call[Writer.Write#0] assert only_after_both_words_are_in_place [C05]: executed("littleEndian.PutUint64#0") && executed("littleEndian.PutUint64#1")
 //@   call[littleEndian.PutUint64#0] assert hi_in_bytes_0_to_8 [C05]: arg2 == c.Hi && ref(arg1) == ref(buf) && len(arg1) == 8
 //@   call[littleEndian.PutUint64#1] assert lo_in_bytes_8_to_16 [C05]: arg2 == c.Lo && ref(arg1) == subref(buf, 8) && len(arg1) == 8
 //@   call[Writer.Write#0] assert writes_the_16_byte_buffer [C05]: ref(arg0) == ref(w) && ref(arg1) == ref(buf) && len(arg1) == 16
@@ -72,6 +73,7 @@ package car
 //@   ensures def [C05]: result == (bitof(n, pos) == 1)
 
 //@ func (Header).WriteTo
+//@   call[Writer.Write#0] assert only_after_all_three_words_are_in_place [C05]: executed("littleEndian.PutUint64#0") && executed("littleEndian.PutUint64#1") && executed("littleEndian.PutUint64#2")
 //@   call[littleEndian.PutUint64#0] assert data_offset_in_bytes_0_to_8 [C05]: arg2 == h.DataOffset && ref(arg1) == ref(buf) && len(arg1) == 8
 //@   call[littleEndian.PutUint64#1] assert data_size_in_bytes_8_to_16 [C05]: arg2 == h.DataSize && ref(arg1) == subref(buf, 8) && len(arg1) == 8
 //@   call[littleEndian.PutUint64#2] assert index_offset_in_bytes_16_to_24 [C05]: arg2 == h.IndexOffset && ref(arg1) == subref(buf, 16) && len(arg1) == 8
@@ -140,6 +142,7 @@ package car
 //@   call[Prefix.Sum#0] assert hashes_with_the_cids_own_prefix [C01,C02]: arg0.Version == pversion(c) && arg0.Codec == pcodec(c) && arg0.MhType == mhtype(c) && arg0.MhLength == mhlen(c) && ref(arg1) == ref(data)
 
 //@ func (*BlockReader).SkipNext
+//@   call[cid.CidFromBytes#0] assert only_for_an_empty_section [C02,C14]: e0 == nil && sectionSize == 0
 //@   ensures a_length_error_is_returned_as_it_is [C02,C14]: e0 != nil ==> err == e0 && result0 == nil
 //@   let finalOffset, fserr := call[Seeker.Seek#1]
 //@   let readCnt, cperr := call[io.CopyN#0]
@@ -173,6 +176,7 @@ package car
 //@   ensures skipped_block_is_there [C02]: err == nil ==> pos(br.r) <= lim(br.r) || pos(br.r) <= sbase(br.r) + send(br.r)
 
 //@ func LoadIndex
+//@   call[Seeker.Seek#0] assert the_inner_header_of_a_v2_is_version_1 [C03]: pragma.Version == 2 ==> v1herr == nil && v1h.Version == 1
 //@   check a_clean_end_loads_the_records [C03,C11]: executed("varint.ReadUvarint#0") && verr == io.EOF ==> executed("Index.Load#0")
 //@   check a_cid_at_the_limit_is_not_too_large [C03,C04]: executed("cid.CidFromReader#0") && cerr0 == nil && !executed("Seeker.Seek#2") ==> cidLen0 > o.MaxIndexCidSize && (o.StoreIdentityCIDs || mhtype(c0) != 0)
 //@   let v1h, v1herr := call[carv1.ReadHeader#1]
@@ -236,6 +240,7 @@ package car
 //@   call[carv1.WriteHeader#0] assert new_header [C10]: arg0.Version == 1 && arg0.Roots == roots
 
 //@ func ExtractV1File
+//@   check only_a_v1_source_is_called_already_v1 [C10]: err == ErrAlreadyV1 && executed("ReadVersion#0") && verr == nil && !executed("Header.ReadFrom#0") ==> ver == 1
 //@   let src, operr := call[os.Open#0]
 //@   let ver, verr := call[ReadVersion#0]
 //@   let _, herr := call[Header.ReadFrom#0]
@@ -271,9 +276,13 @@ package car
 //@   call[index.WriteTo#0] assert index_after_payload [C10]: ref(arg0) == ref(idx) && ref(arg1) == ref(dst)
 
 //@ func (*Reader).IndexReader
+//@   call[io.NewOffsetReadSeeker#0] assert at_the_declared_index_offset [C07,C13]: r.Version != 1 && r.Header.IndexOffset != 0 && ref(arg0) == ref(r.r) && arg1 == wrap_s64(r.Header.IndexOffset)
+//@   ensures a_declared_index_is_handed_out [C07,C13]: r.Version != 1 && r.Header.IndexOffset != 0 && err == nil ==> result0 != nil
 //@   ensures absent [C07,C13]: r.Version == 1 || r.Header.IndexOffset == 0 ==> result0 == nil && err == nil
 
 //@ func (*Reader).DataReader
+//@   call[io.NewSectionReader#0] assert the_payload_window_of_a_v2 [C07,C10,C13]: r.Version == 2 && ref(arg0) == ref(r.r) && arg1 == wrap_s64(r.Header.DataOffset) && arg2 == wrap_s64(r.Header.DataSize)
+//@   call[io.NewOffsetReadSeeker#0] assert a_v1_from_its_start [C07,C13]: r.Version != 2 && ref(arg0) == ref(r.r) && arg1 == 0
 //@   ghostinit result0
 //@   ensures window [C07,C10,C13]: err == nil ==> result0 != nil && pos(result0) == sbase(result0) && (r.Version == 2 ==> send(result0) == wrap_s64(r.Header.DataSize) && lim(result0) == pos(result0) + wrap_s64(r.Header.DataSize))
 //@   ensures v1_whole_source [C07]: r.Version != 2 ==> err == nil
